@@ -173,6 +173,16 @@ impl Searcher {
         };
 
         for depth in 0..max_depth {
+            // The workers only look at the cancellation flag every 10000 nodes, counted per
+            // iteration. Iterations that stay below that (every move of the root leads into an
+            // already recorded position, or the whole tree ends in forced mates) would never
+            // see a stop request, and without a depth limit the search would never end. So the
+            // flag is read between iterations as well - but not before the first one, so that
+            // even a search that is stopped immediately has a move to report.
+            if depth > 0 && token.is_cancelled() {
+                break;
+            }
+
             // Don't bother doing multiple threads if we're only searching a few moves
             // as the OS overhead will likely outweigh the benefits of parallelism
             let thread_count = max_thread_count.unwrap_or_else(|| {
